@@ -8,8 +8,9 @@ TIERS = {"quick": (6, 2, 1, 1, 40, 12), "thorough": (8, 5, 3, 2, 1100, 16)}
 #   X = one composite level over the library's own leaves (SleepAction 50 ms, FunctionAction, all overloads) and "late" probe leaves (complete although paused/stopped meanwhile)
 #   N = two nested composites (one representative mode per kind, arity <= 2), leaves S0/F1 (+ one B1 / flip / a timeout on the INNER composite)
 #   T = one composite level, root timeout set / set again / withdrawn while the tree is under way (ops set-timeout, reset-timeout)
-LANES = {"quick": {"X": (6, 2, 1, 1, 0, 4), "N": (6, 4, 2, 2, 2, 4), "T": (7, 2, 1, 1, 0, 2)},
-         "thorough": {"X": (7, 3, 1, 1, 0, 6), "N": (7, 5, 2, 2, 2, 6), "T": (8, 3, 1, 1, 0, 4)}}
+#   R = one composite level (family A's shapes and leaves), the root's finish callback re-uses the tree once: reset(); start(); from inside the notification
+LANES = {"quick": {"X": (6, 2, 1, 1, 0, 4), "N": (6, 4, 2, 2, 2, 4), "T": (7, 2, 1, 1, 0, 2), "R": (6, 1, 1, 1, 0, 4)},
+         "thorough": {"X": (8, 3, 1, 1, 0, 5), "N": (8, 5, 2, 2, 2, 5), "T": (8, 3, 1, 1, 0, 2), "R": (8, 2, 1, 1, 0, 4)}}
 ASAN = "detect_leaks=0:abort_on_error=0:quarantine_size_mb=32"
 def replay(exe, path):
     """./check C17 --replay replays/C17/<tier>_<n>.replay : re-run every recorded (program, history) and print its full trace and verdict."""
@@ -69,21 +70,35 @@ def main(tier, args):
     shape = ("one composite level (every composite kind and mode over 1-4 leaves)" if maxd == 1 else
              "trees of depth <= %d with <= %d composite nodes (enumeration A) and, separately, the trees of depth 3 = three nested composites over <= 2 plain leaves (enumeration B)" % (maxd, maxc))
     vf.finish(PID, tier, res, t0,
-              rule="programs = real tbox::flow action trees, %s, <= 4 ProbeLeaf leaves, enumerated canonically by weight <= %d "
+              rule="enumeration A: programs = real tbox::flow action trees (every library class wrapped in a hook-announcing subclass; constructor / setter / role-alias "
+                   "variant of each composite picked from the program index), %s, <= 4 ProbeLeaf leaves, enumerated canonically by weight <= %d "
                    "(shape weight 2*(composites-1)+(depth-1)+max(0,leaves-2); leaf script weight S0,S1,F0,F1=0, N,B1 and the "
                    "succeed-once/fail-once flips (below loops) =1, B0,S2,F2=2, B2 and delayed flips=3; root timeout=1; "
                    "Switch reason messages enumerated for free); Repeat times in {1,2}; for every program a BFS over all control "
-                   "histories of start/pause/resume/stop/reset/pass/advance-timeout up to depth %d (calls that the base class answers "
+                   "histories of start/pause/resume/stop/reset/pass/advance-to-the-earliest-armed-timer up to depth %d (calls that the base class answers "
                    "without effect in the current state are issued as probes at the end of every history instead of being expanded), "
-                   "followed by a drain (resume + passes until nothing is pending); a pass = the body of one CommonLoop iteration on the real loop "
-                   "under a virtual clock; oracles = structural invariants (finish callback once, nothing left under way below a finished/stopped "
-                   "node, no stale notification after stop/reset by epoch tag, final hook once, reset-then-continue trace-equal to a fresh tree, "
-                   "a tree that can complete does complete) + one reference monitor per composite applying the documented step function to the "
-                   "notifications actually delivered; ASan/UBSan" % (shape, maxw, depth),
+                   "followed by a drain (resume + passes until nothing is pending) and, once per new canonical state with something queued or armed, by a terminal "
+                   "destroy (delete the tree as it is, run the loop: no notification afterwards, no timer left, ASan); a pass = the body of one CommonLoop iteration on the real loop "
+                   "under a virtual clock; oracles = structural invariants (finish callback once, no node started while its previous run is under way, nothing left under way below a finished/stopped "
+                   "node, no stale notification after stop/reset by epoch tag on EVERY node, final hook once, reset-then-continue trace-equal to a fresh tree, "
+                   "a tree that can complete does complete, a timeout fires only while configured and after its full span) + one reference monitor per composite applying the documented step function to the "
+                   "notifications actually delivered; ASan/UBSan. Side lanes, same BFS and oracles (lane: history depth, weight bound): %s. "
+                   "X = one composite level over S0/F1/B1 + at least one of the library's own leaves (SleepAction 50 ms both constructors, FunctionAction all four overloads; results checked) "
+                   "and late probe leaves that complete although paused/stopped meanwhile (finish() after stop must be refused, while paused it is accepted); "
+                   "N = two nested composites (Sequence, Parallel, IfThen, Loop.UntilSucc, LoopIf, Repeat(2), Wrapper.Invert, Composite; arity <= 2) over S0/F1 + one of "
+                   "B1 / fail-once flip / a 100 ms timeout on the inner composite; T = 8 representative shapes over S1 + up to two of N/F1/B1/SleepAction, with and without an "
+                   "initial root timeout, extra ops set-timeout (running or paused root, repeatable) and reset-timeout; R = lane A's programs of weight <= bound whose root "
+                   "finish callback re-uses the tree once from inside the notification (reset(); start())"
+                   % (shape, maxw, depth, ", ".join("%s: %d, %d" % (l, v[0], v[1]) for l, v in sorted(LANES[tier].items()))),
               assumptions=["a loop pass is modelled as handleExpiredTimers()+handleNextFunc() of the real CommonLoop (what runLoop(kForever) does per wake-up); "
                            "runLoop(kOnce) is not used because its exit path drains up to 100 rounds of deferred tasks and would hide the interleavings",
-                           "control calls are applied to the root only, between passes; leaves complete from inside the loop (runNext), one pass before their notification is delivered",
+                           "control calls are applied to the root only, between passes (lane R: also reset+start from inside the root's finish notification); calls made on an ancestor from inside a "
+                           "descendant's onStart / a FunctionAction's function / a final hook are not explored; leaves complete from inside the loop (runNext), one pass before their notification is delivered",
+                           "timeouts: WHEN a configured timeout may fire is modelled permissively (not before the full span since the run started or the timeout was set; pause/resume/block re-arming is "
+                           "not documented and not compared); that an armed timeout does fire is not demanded; SleepAction durations are not compared, only that a sleeping leaf completes once its timer is due",
+                           "ActionExecutor (priority queueing on top of whole trees) is not part of the closed system; what it does to a tree (pause/resume/stop/delete at any moment) is covered by the root ops and the terminal destroy",
                            "Repeat with times==0 is outside the family (DESIGN 5); results that are neither documented nor pinned (terminating Loop, Repeat running out of times in a Break mode) are not compared",
                            "the canonical state contains the `what` text of queued loop tasks but not their bound arguments (the result bit is still readable from the node)",
                            "thorough tier: programs beyond the index printed in caps_hit were not explored (deadline)"],
-              extra={"family": {"history_depth": depth, "max_weight": maxw, "max_composites": maxc, "max_tree_depth": maxd, "processes": np, "deadline_s": dl}})
+              extra={"family": {"history_depth": depth, "max_weight": maxw, "max_composites": maxc, "max_tree_depth": maxd, "processes": np, "deadline_s": dl,
+                                "side_lanes": {l: {"history_depth": v[0], "max_weight": v[1], "max_composites": v[2], "max_tree_depth": v[3], "min_tree_depth": v[4], "processes": v[5]} for l, v in LANES[tier].items()}}})
